@@ -267,7 +267,7 @@ theorem TInv.step {s : St} (h : TInv s) (op : Op) : TInv (s.step op).1 := by
   | parse i d => exact h.put i (bindAll_finv true _ _ _ (h.mgr i))
   | parsexml i d => exact h.put i (bindAll_finv false _ _ _ (h.mgr i))
   | ser i a b c => exact h.put i (getQNames_finv _ _ _ (h.mgr i))
-  | serdoc i qs => exact h.put i (reset_finv _ _)
+  | serdoc i fb qs => exact h.put i (reset_finv _ _)
 
 theorem TInv.run (ops : List Op) : ∀ {s : St}, TInv s → TInv (s.run ops) := by
   induction ops with
